@@ -325,13 +325,9 @@ class SymmetryTranslator:
                     lit.sign == Sign.Negation and guard.comparison == ComparisonOperator.Equal
                 ):
                     ret[ComparisonOperator.NotEqual].append((lit, atom.term, guard.term))
-                elif (lit.sign == Sign.NoSign and guard.comparison == ComparisonOperator.LessThan) or (
-                    lit.sign == Sign.Negation and guard.comparison == ComparisonOperator.GreaterThan
-                ):
+                elif lit.sign == Sign.NoSign and guard.comparison == ComparisonOperator.LessThan:
                     ret[ComparisonOperator.LessThan].append((lit, atom.term, guard.term))
-                elif (lit.sign == Sign.NoSign and guard.comparison == ComparisonOperator.GreaterThan) or (
-                    lit.sign == Sign.Negation and guard.comparison == ComparisonOperator.LessThan
-                ):
+                elif lit.sign == Sign.NoSign and guard.comparison == ComparisonOperator.GreaterThan:
                     ret[ComparisonOperator.LessThan].append((lit, guard.term, atom.term))
         return ret
 
